@@ -259,6 +259,14 @@ func (g *Gen) Program() []core.Op {
 				o.Srcs = append(o.Srcs, s)
 			}
 			prog = append(prog, o)
+			if len(o.Srcs) >= 2 && len(o.Srcs) <= 32 && g.R.Chance(1, 3) {
+				// the same first source again, into another destination: the earlier result must not change
+				other := g.name()
+				o2 := &Op{Kind: "compose", B: b, N: other, HasMeta: true, Meta: g.meta(true), Srcs: []Src{{Name: o.Srcs[0].Name}, {Name: g.name()}}}
+				prog = append(prog, o2)
+				g.readBack(&prog, b, nm)
+				g.readBack(&prog, b, o.Srcs[0].Name)
+			}
 			if p.ReadBack {
 				g.readBack(&prog, b, nm)
 			}
@@ -287,9 +295,13 @@ func (g *Gen) Program() []core.Op {
 			g.readBack(&prog, "bk", nm)
 		}
 	}
-	// final dump
+	// final dump: the listing, and every name's metadata and bytes (an object changed behind the back
+	// of the request that wrote it shows up here)
 	for _, b := range Buckets {
 		prog = append(prog, &Op{Kind: "listall", B: b, Max: 1000})
+	}
+	for _, nm := range p.Names {
+		prog = append(prog, &Op{Kind: "getmedia", B: "bk", N: nm})
 	}
 	return prog
 }
